@@ -96,6 +96,27 @@ int scan_directory(fstree_t *fs, sqfs_dir_iterator_t *dir,
 				free(ent);
 				return -1;
 			}
+
+			/* a hard link target is relative to the scanned
+			   directory, move it below the prefix as well */
+			if ((ent->flags & SQFS_DIR_ENTRY_FLAG_HARD_LINK) &&
+			    prefix_len > 0) {
+				size_t tlen = strlen(extra) + 1;
+				char *full = malloc(prefix_len + 1 + tlen);
+
+				if (full == NULL) {
+					free(extra);
+					free(ent);
+					fputs("out-of-memory\n", stderr);
+					return -1;
+				}
+
+				memcpy(full, ent->name, prefix_len);
+				full[prefix_len] = '/';
+				memcpy(full + prefix_len + 1, extra, tlen);
+				free(extra);
+				extra = full;
+			}
 		} else if (S_ISREG(ent->mode) &&
 			   (prefix_len > 0 || file_prefix != NULL)) {
 			const char *src;
